@@ -6,23 +6,50 @@ open Nice.Sock Nice.SendQueue
 
 /-! ## SendQueue -/
 
-theorem blit_full (dst src : Bytes) (h : src.length = dst.length) : blit dst 0 src = src := by
-  simp [blit, h, List.drop_eq_nil_of_le]
+theorem blit_eq (dst src : Bytes) (off : Nat) : blit dst off src = dst.take off ++ src ++ dst.drop (off + src.length) := rfl
 
-theorem copyLoop_single (d : Bytes) (n : Nat) (h : n < d.length) (junk : UInt8) :
-    copyLoop [d] n 0 (List.replicate (d.length - n) junk) = d.drop n := by
-  simp only [copyLoop]
-  have h1 : ¬ d.length ≤ n := by omega
-  simp only [h1, ↓reduceIte, List.length_replicate, Nat.sub_zero, Nat.min_self]
-  rw [blit_full]
-  · apply List.take_of_length_le; simp
-  · simp
+/-- the copy loop of `nice_socket_queue_send_with_callback` (as fixed): starting `mo` bytes into the
+    message, it writes exactly the rest of the concatenated buffers behind what the block already holds -/
+theorem copyLoop_flat : ∀ (bufs : List Bytes) (mo off : Nat) (tbs : Bytes), mo ≤ bufs.flatten.length →
+    tbs.length = off + (bufs.flatten.length - mo) → copyLoop bufs mo off tbs = tbs.take off ++ bufs.flatten.drop mo := by
+  intro bufs
+  induction bufs with
+  | nil =>
+    intro mo off tbs _ hl
+    simp only [List.flatten_nil, List.length_nil, Nat.zero_sub, Nat.add_zero] at hl
+    simp [copyLoop, List.take_of_length_le, hl]
+  | cons buf rest ih =>
+    intro mo off tbs hmo hl
+    simp only [List.flatten_cons, List.length_append] at hmo hl
+    simp only [copyLoop, List.flatten_cons]
+    by_cases hskip : buf.length ≤ mo
+    · simp only [hskip, ↓reduceIte]
+      rw [ih (mo - buf.length) off tbs (by omega) (by omega)]
+      rw [List.drop_append, List.drop_eq_nil_of_le hskip, List.nil_append]
+    · simp only [hskip, ↓reduceIte]
+      have hoff : off ≤ tbs.length := by omega
+      have hmin : min (tbs.length - off) (buf.length - mo) = buf.length - mo := by omega
+      have hdl : ((buf.drop mo).take (buf.length - mo)) = buf.drop mo := List.take_of_length_le (by simp)
+      rw [hmin, hdl]
+      have htl : (tbs.take off).length = off := by simp only [List.length_take]; omega
+      have hbl : (blit tbs off (buf.drop mo)).length = tbs.length := by
+        simp only [blit_eq, List.length_append, htl, List.length_drop]; omega
+      rw [ih 0 (off + (buf.length - mo)) (blit tbs off (buf.drop mo)) (Nat.zero_le _) (by rw [hbl]; omega)]
+      have htk : (blit tbs off (buf.drop mo)).take (off + (buf.length - mo)) = tbs.take off ++ buf.drop mo := by
+        rw [blit_eq]
+        exact List.take_left' (by simp only [List.length_append, htl, List.length_drop])
+      rw [htk, List.drop_zero, List.append_assoc]
+      congr 1
+      rw [List.drop_append_of_le_length (by omega)]
 
-theorem queuedBlock_single (d : Bytes) (n : Nat) (h : n < d.length) :
-    queuedBlock [d] n d.length = some (d.drop n) := by
+theorem queuedBlock_flat (bufs : List Bytes) (d : Bytes) (hd : bufs.flatten = d) (n : Nat) (h : n < d.length) :
+    queuedBlock bufs n d.length = some (d.drop n) := by
+  subst hd
   simp only [queuedBlock]
-  have : ¬ n ≥ d.length := by omega
-  simp only [this, ↓reduceIte, copyLoop_single d n h]
+  have : ¬ n ≥ bufs.flatten.length := by omega
+  simp only [this, ↓reduceIte]
+  rw [copyLoop_flat bufs n 0 _ (by omega) (by rw [List.length_replicate]; omega)]
+  rfl
 
 theorem queuedBlock_none (bufs : List Bytes) (n len : Nat) (h : n ≥ len) : queuedBlock bufs n len = none := by
   simp [queuedBlock, h]
@@ -42,36 +69,33 @@ theorem Kernel.send_spec (k : Kernel) (d : Bytes) :
 /-- the bytes not yet on the wire -/
 def backlog (s : St) : Bytes := s.queue.flatten
 
-theorem enqueue_tail_single (s : St) (d : Bytes) (hd : d ≠ []) (w : Bool) :
-    backlog (enqueue s [d] 0 d.length false w) = backlog s ++ d := by
-  have h : 0 < d.length := List.length_pos_iff.mpr hd
-  simp [enqueue, queuedBlock_single d 0 h, backlog]
+theorem enqueue_tail_flat (s : St) (bufs : List Bytes) (d : Bytes) (hd : bufs.flatten = d) (hne : d ≠ []) (w : Bool) :
+    backlog (enqueue s bufs 0 d.length false w) = backlog s ++ d := by
+  have h : 0 < d.length := List.length_pos_iff.mpr hne
+  simp [enqueue, queuedBlock_flat bufs d hd 0 h, backlog]
 
-theorem enqueue_head_single (s : St) (d : Bytes) (n : Nat) (h : n < d.length) (w : Bool) :
-    backlog (enqueue s [d] n d.length true w) = d.drop n ++ backlog s := by
-  simp [enqueue, queuedBlock_single d n h, backlog]
+theorem enqueue_head_flat (s : St) (bufs : List Bytes) (d : Bytes) (hd : bufs.flatten = d) (n : Nat) (h : n < d.length)
+    (w : Bool) : backlog (enqueue s bufs n d.length true w) = d.drop n ++ backlog s := by
+  simp [enqueue, queuedBlock_flat bufs d hd n h, backlog]
 
-theorem enqueue_nil (s : St) (head w : Bool) : enqueue s [[]] 0 0 head w = s := by
-  simp [enqueue, queuedBlock]
-
-/-- one single-buffer message handed to tcp-bsd while nothing is queued: (bytes accepted now) ++
-    (new backlog) is exactly the message when the call reports it accepted -/
-theorem sendMessage_single_idle (s : St) (k : Kernel) (d : Bytes) (rel : Bool)
+/-- one message (any number of buffers, `d` = their concatenation) handed to tcp-bsd while nothing
+    is queued: (bytes accepted now) ++ (new backlog) is exactly the message -/
+theorem sendMessage_idle (s : St) (k : Kernel) (bufs : List Bytes) (d : Bytes) (hd : bufs.flatten = d) (rel : Bool)
     (he : s.err = false) (hq : s.queue = []) :
-    let r := sendMessage s k [d] rel
-    r.2.1.flatten ++ backlog r.2.2.1 = d ∧ r.1 = d.length := by
-  simp only [sendMessage, he, hq, List.isEmpty_nil, List.flatten_cons, List.flatten_nil, List.append_nil]
+    (sendMessage s k bufs rel).2.1.flatten ++ backlog (sendMessage s k bufs rel).2.2.1 = d ∧
+    (sendMessage s k bufs rel).1 = d.length := by
+  simp only [sendMessage, he, hq, List.isEmpty_nil, hd]
   rcases Kernel.send_spec k d with ⟨k', hk⟩ | ⟨n, k', hn, hk⟩
   · simp only [hk]
-    by_cases hd : d = []
-    · subst hd; simp [enqueue, queuedBlock, backlog, hq]
-    · have := enqueue_tail_single s d hd true
+    by_cases hne : d = []
+    · subst hne; simp [enqueue, queuedBlock, backlog, hq]
+    · have := enqueue_tail_flat s bufs d hd hne true
       simp only [backlog] at this ⊢
       simp [this, hq]
   · simp only [hk]
     by_cases hlt : n < d.length
     · simp only [hlt, ↓reduceIte]
-      have := enqueue_head_single s d n hlt true
+      have := enqueue_head_flat s bufs d hd n hlt true
       simp only [backlog] at this ⊢
       simp [this, hq]
     · have : n = d.length := by omega
@@ -79,23 +103,22 @@ theorem sendMessage_single_idle (s : St) (k : Kernel) (d : Bytes) (rel : Bool)
       simp [backlog, hq]
 
 /-- ... while something is queued: a reliable send is appended whole, an unreliable one refused -/
-theorem sendMessage_single_busy (s : St) (k : Kernel) (d : Bytes) (rel : Bool)
+theorem sendMessage_busy (s : St) (k : Kernel) (bufs : List Bytes) (d : Bytes) (hd : bufs.flatten = d) (rel : Bool)
     (he : s.err = false) (hq : s.queue ≠ []) :
-    let r := sendMessage s k [d] rel
-    r.2.1 = [] ∧ r.2.2.2 = k ∧
-    (rel = true → backlog r.2.2.1 = backlog s ++ d ∧ r.1 = d.length) ∧
-    (rel = false → r.2.2.1 = s ∧ r.1 = 0) := by
+    (sendMessage s k bufs rel).2.1 = [] ∧ (sendMessage s k bufs rel).2.2.2 = k ∧
+    (rel = true → backlog (sendMessage s k bufs rel).2.2.1 = backlog s ++ d ∧ (sendMessage s k bufs rel).1 = d.length) ∧
+    (rel = false → (sendMessage s k bufs rel).2.2.1 = s ∧ (sendMessage s k bufs rel).1 = 0) := by
   have hne : s.queue.isEmpty = false := by
     cases h : s.queue with
     | nil => exact absurd h hq
     | cons a t => rfl
-  simp only [sendMessage, he, hne, List.flatten_cons, List.flatten_nil, List.append_nil]
+  simp only [sendMessage, he, hne, hd]
   cases rel with
   | true =>
     simp only [↓reduceIte]
-    by_cases hd : d = []
-    · subst hd; simp [enqueue, queuedBlock]
-    · simp [enqueue_tail_single s d hd true]
+    by_cases hde : d = []
+    · subst hde; simp [enqueue, queuedBlock]
+    · simp [enqueue_tail_flat s bufs d hd hde true]
   | false => simp
 
 /-- `nice_socket_flush_send_queue_to_socket` moves bytes from the front of the backlog to the wire,
@@ -124,12 +147,13 @@ theorem flush_contiguous (fuel : Nat) (q : List Bytes) (k : Kernel) (w : List By
           simp only [List.flatten_append, List.flatten_cons, List.flatten_nil, List.append_nil, List.append_assoc] at this ⊢
           exact this
 
-/-- a session on one tcp-bsd socket: single-buffer messages, kernel acceptance scripts, writable events -/
+/-- a session on one tcp-bsd socket: messages of any number of buffers, kernel acceptance scripts,
+    writable events -/
 inductive Op where
-  | send (d : Bytes)         -- socket_send_messages (unreliable)
-  | sendr (d : Bytes)        -- socket_send_messages_reliable
-  | writable                 -- G_IO_OUT: socket_send_more
-  | script (acc : List Nat)  -- what the kernel will accept on the next sendmsg calls
+  | send (bufs : List Bytes)   -- socket_send_messages (unreliable)
+  | sendr (bufs : List Bytes)  -- socket_send_messages_reliable
+  | writable                   -- G_IO_OUT: socket_send_more
+  | script (acc : List Nat)    -- what the kernel will accept on the next sendmsg calls
 
 structure Run where
   st     : St := {}
@@ -138,12 +162,12 @@ structure Run where
   frames : Bytes := []     -- concatenation of the messages the socket reported as sent (ret = 1)
 
 def stepOp (r : Run) : Op → Run
-  | .send d =>
-    let (res, st, k) := SendQueue.send r.st r.k [d]
-    { st := st, k := k, wire := r.wire ++ res.down.flatten, frames := if res.ret = 1 then r.frames ++ d else r.frames }
-  | .sendr d =>
-    let (res, st, k) := SendQueue.sendReliable r.st r.k [d]
-    { st := st, k := k, wire := r.wire ++ res.down.flatten, frames := if res.ret = 1 then r.frames ++ d else r.frames }
+  | .send bufs =>
+    let (res, st, k) := SendQueue.send r.st r.k bufs
+    { st := st, k := k, wire := r.wire ++ res.down.flatten, frames := if res.ret = 1 then r.frames ++ bufs.flatten else r.frames }
+  | .sendr bufs =>
+    let (res, st, k) := SendQueue.sendReliable r.st r.k bufs
+    { st := st, k := k, wire := r.wire ++ res.down.flatten, frames := if res.ret = 1 then r.frames ++ bufs.flatten else r.frames }
   | .writable =>
     let (res, st, k) := SendQueue.writable r.st r.k
     { r with st := st, k := k, wire := r.wire ++ res.down.flatten }
@@ -153,29 +177,26 @@ def runOps (r : Run) (ops : List Op) : Run := ops.foldl stepOp r
 
 def Inv (r : Run) : Prop := r.wire ++ backlog r.st = r.frames
 
-theorem sendMessage_inv (s : St) (k : Kernel) (d : Bytes) (rel : Bool) :
-    let r := sendMessage s k [d] rel
-    (r.1 < 0 → r.2.1 = [] ∧ r.2.2.1 = s) ∧
-    (r.1 = 0 → r.2.1.flatten ++ backlog r.2.2.1 = backlog s ∧ (rel = true → d = [])) ∧
-    (r.1 > 0 → r.2.1.flatten ++ backlog r.2.2.1 = backlog s ++ d) := by
+theorem sendMessage_inv (s : St) (k : Kernel) (bufs : List Bytes) (d : Bytes) (hd : bufs.flatten = d) (rel : Bool) :
+    ((sendMessage s k bufs rel).1 < 0 → (sendMessage s k bufs rel).2.1 = [] ∧ (sendMessage s k bufs rel).2.2.1 = s) ∧
+    ((sendMessage s k bufs rel).1 = 0 →
+      (sendMessage s k bufs rel).2.1.flatten ++ backlog (sendMessage s k bufs rel).2.2.1 = backlog s ∧ (rel = true → d = [])) ∧
+    ((sendMessage s k bufs rel).1 > 0 →
+      (sendMessage s k bufs rel).2.1.flatten ++ backlog (sendMessage s k bufs rel).2.2.1 = backlog s ++ d) := by
   by_cases he : s.err = true
   · simp [sendMessage, he]
   · have he : s.err = false := by simpa using he
     by_cases hq : s.queue = []
-    · have h := sendMessage_single_idle s k d rel he hq
-      simp only at h ⊢
-      obtain ⟨h1, h2⟩ := h
+    · obtain ⟨h1, h2⟩ := sendMessage_idle s k bufs d hd rel he hq
       have hb : backlog s = [] := by simp [backlog, hq]
       refine ⟨fun hlt => by omega, fun h0 => ?_, fun _ => by simp [h1, hb]⟩
       have : d = [] := by
         have : d.length = 0 := by omega
         exact List.length_eq_zero_iff.mp this
-      subst this
+      rw [this] at h1
       simp only [hb]
-      exact ⟨by simpa using h1, by simp⟩
-    · have h := sendMessage_single_busy s k d rel he hq
-      simp only at h ⊢
-      obtain ⟨h1, _, h3, h4⟩ := h
+      exact ⟨h1, fun _ => this⟩
+    · obtain ⟨h1, _, h3, h4⟩ := sendMessage_busy s k bufs d hd rel he hq
       cases rel with
       | true =>
         obtain ⟨h5, h6⟩ := h3 rfl
@@ -183,44 +204,43 @@ theorem sendMessage_inv (s : St) (k : Kernel) (d : Bytes) (rel : Bool) :
         have : d = [] := by
           have : d.length = 0 := by omega
           exact List.length_eq_zero_iff.mp this
-        subst this
-        simp [h1, h5]
+        rw [this] at h5
+        simp only [h1, h5, List.flatten_nil, List.nil_append, List.append_nil]
+        exact ⟨trivial, fun _ => this⟩
       | false =>
         obtain ⟨h5, h6⟩ := h4 rfl
         refine ⟨fun hlt => by omega, fun _ => by simp [h1, h5], fun hgt => by omega⟩
 
-theorem send_inv (s : St) (k : Kernel) (d : Bytes) :
-    (SendQueue.send s k [d]).1.down.flatten ++ backlog (SendQueue.send s k [d]).2.1 =
-      backlog s ++ (if (SendQueue.send s k [d]).1.ret = 1 then d else []) := by
-  obtain ⟨h1, h2, h3⟩ := sendMessage_inv s k d false
+theorem send_inv (s : St) (k : Kernel) (bufs : List Bytes) :
+    (SendQueue.send s k bufs).1.down.flatten ++ backlog (SendQueue.send s k bufs).2.1 =
+      backlog s ++ (if (SendQueue.send s k bufs).1.ret = 1 then bufs.flatten else []) := by
+  obtain ⟨h1, h2, h3⟩ := sendMessage_inv s k bufs bufs.flatten rfl false
   simp only [SendQueue.send]
-  rcases Int.lt_trichotomy (sendMessage s k [d] false).1 0 with hlt | heq | hgt
+  rcases Int.lt_trichotomy (sendMessage s k bufs false).1 0 with hlt | heq | hgt
   · obtain ⟨a, b⟩ := h1 hlt
     simp [hlt, a, b]
   · obtain ⟨a, _⟩ := h2 heq
     simp [heq, a]
   · have a := h3 hgt
-    have hne : ¬ (sendMessage s k [d] false).1 < 0 := by omega
-    have hne0 : ((sendMessage s k [d] false).1 == 0) = false := by
+    have hne : ¬ (sendMessage s k bufs false).1 < 0 := by omega
+    have hne0 : ((sendMessage s k bufs false).1 == 0) = false := by
       simp; omega
-    simp [hne, hne0, a]
+    simp only [hne, hne0, ↓reduceIte, Bool.false_eq_true, a]
 
-theorem sendReliable_inv (s : St) (k : Kernel) (d : Bytes) :
-    (SendQueue.sendReliable s k [d]).1.down.flatten ++ backlog (SendQueue.sendReliable s k [d]).2.1 =
-      backlog s ++ (if (SendQueue.sendReliable s k [d]).1.ret = 1 then d else []) := by
-  obtain ⟨h1, h2, h3⟩ := sendMessage_inv s k d true
+theorem sendReliable_inv (s : St) (k : Kernel) (bufs : List Bytes) :
+    (SendQueue.sendReliable s k bufs).1.down.flatten ++ backlog (SendQueue.sendReliable s k bufs).2.1 =
+      backlog s ++ (if (SendQueue.sendReliable s k bufs).1.ret = 1 then bufs.flatten else []) := by
+  obtain ⟨h1, h2, h3⟩ := sendMessage_inv s k bufs bufs.flatten rfl true
   simp only [SendQueue.sendReliable]
-  rcases Int.lt_trichotomy (sendMessage s k [d] true).1 0 with hlt | heq | hgt
+  rcases Int.lt_trichotomy (sendMessage s k bufs true).1 0 with hlt | heq | hgt
   · obtain ⟨a, b⟩ := h1 hlt
     simp [hlt, a, b]
   · obtain ⟨a, hd⟩ := h2 heq
     have hd := hd rfl
-    subst hd
-    simp only [heq, show ¬ ((0:Int) < 0) by decide, ↓reduceIte]
-    simpa using a
+    simp only [heq, show ¬ ((0:Int) < 0) by decide, ↓reduceIte, a, hd, List.append_nil]
   · have a := h3 hgt
-    have hne : ¬ (sendMessage s k [d] true).1 < 0 := by omega
-    simp [hne, a]
+    have hne : ¬ (sendMessage s k bufs true).1 < 0 := by omega
+    simp only [hne, ↓reduceIte, a]
 
 theorem writable_inv (s : St) (k : Kernel) :
     (SendQueue.writable s k).1.down.flatten ++ backlog (SendQueue.writable s k).2.1 = backlog s := by
